@@ -466,6 +466,24 @@ def _(c):
         want = np.asarray(primed(lambda d: jpl.get_orbit("MarsBarycenter", d), target, la), dtype=float)
         got = np.asarray(primed(lambda d: jpl.get_orbit("MarsBarycenter", d), target.change_scale(la), target.scale.name), dtype=float)
         c.ensure("body_position", bool(np.linalg.norm(want[:3] - got[:3]) <= 1e-3 + 3e4 * 2e-6))
+        # the first minute of the kernel (its span is given in TDB): an instant inside it is served under every label -- read on the clock of a scale that lags TDB
+        # it looks as if it came before the kernel starts
+        from jplephem.spk import SPK
+        k_ = SPK.open("/repo/tests/data/jpl/de403_2000-2020.bsp")
+        try:
+            jd0 = [s_.start_jd for s_ in k_.segments if s_.target == 4][0]
+        finally:
+            k_.close()
+        ok_edge = True
+        for off in (5.0, 25.0, 45.0, 70.0):
+            t_tdb = Date(jd0 - 2400000.5 + off / 86400.0, scale="TDB")
+            try:
+                a_ = np.asarray(jpl.get_orbit("MarsBarycenter", t_tdb), dtype=float)
+                b_ = np.asarray(jpl.get_orbit("MarsBarycenter", t_tdb.change_scale(la)), dtype=float)
+                ok_edge = ok_edge and bool(np.linalg.norm(a_[:3] - b_[:3]) <= 1e-3 + 3e4 * 2e-6)
+            except Exception:
+                ok_edge = False
+        c.ensure("first_minute_of_the_kernel_under_every_label", ok_edge)
     elif op == "ephem_iter":
         eph = ref.ephem(start=d0, stop=d0 + timedelta(seconds=offs + 3000), step=timedelta(seconds=120))
         from beyond.orbits import Ephem
